@@ -110,8 +110,8 @@ def _unquiesced_related(case, is_trigger, other_side_only=False):
                 continue
             if other_side_only and (u[1] == t[1] or u[2] == "write"):
                 continue        # (contention for a NAME: the other user's create / delete / rename; an edit of the file is not)
-            if any(_related(p, q) for p in tp for q in rel_paths(u)):
-                out.update(tp)
+            if any(_related(_unconf(p), _unconf(q)) for p in tp for q in rel_paths(u)):
+                out.update(tp)      # ('x.conflicted' is a version of x: an operation on one is related to an operation on the other)
     return out or None
 
 
@@ -158,14 +158,17 @@ def _vacated_name_reuse(case):
     plan = case.get("plan", [])
     rn = [(i, it) for i, it in enumerate(plan) if it and it[0] == "U" and it[2] == "rename"]
     out = set()
-    for a, (i, r1) in enumerate(rn):
-        for j, r2 in rn[a + 1:]:
-            if r2[1] != r1[1] or r2[4] != r1[3]:
+    for i, r1 in rn:
+        for j in range(i + 1, len(plan)):
+            r2 = plan[j]
+            if _quiet(r2):
+                break
+            if not (r2 and r2[0] == "U" and r2[1] == r1[1]):
                 continue
-            if any(_quiet(it) for it in plan[i + 1:j]):
-                continue
-            out.update(_op_paths(r1))
-            out.update(_op_paths(r2))
+            # a new object takes the name the rename has just vacated: by another rename (swap) or by a creation
+            if (r2[2] == "rename" and r2[4] == r1[3]) or (r2[2] == "create" and r2[3] == r1[3]):
+                out.update(_op_paths(r1))
+                out.update(_op_paths(r2))
     return out
 
 
